@@ -135,8 +135,42 @@ def model_scenarios(chk, depth, keep_every=1, offset=0, big=False, configure=Fal
     return sc
 
 
-def gen_scenarios(chk, mode, thorough):
-    r = vlib.tlc("client/Gen_Client.tla", workers=1, xmx="8g", env={"GEN_MODE": mode, "GEN_THOROUGH": "1" if thorough else "0", "GEN_BIG": "0"}, timeout=3000)
+_CAL = {}
+
+
+def calibrate(chk, binary):
+    """The two time constants of the implementation are not part of any property (C10 asks for a finite bound, C09 for what happens
+    after a timeout): they are MEASURED from the real client - how long it waits for a packet before it drops the connection
+    (silence instead of an acknowledgement) and how much longer than the configured card timeout it waits in read_card (silence
+    instead of the status). The scenarios and acceptors take them from here; a value other than the shipped 60 s / +2 s is drift."""
+    if "v" in _CAL:
+        return _CAL["v"]
+    wd = vlib.workdir("calibrate")
+    base = {"config": {"read_card_timeout": 15}, "plan": {"default": {"o": "ok", "status": {"amount": [1]}, "uid": [1, 2, 3, 4]}}}
+    scs = [dict(base, calls=[{"op": "begin", "token": [97], "amount": []}],
+                plan=dict(base["plan"], exchanges=[{"o": "ok", "fault": {"pos": 0, "kind": "silence"}}])),
+           dict(base, calls=[{"op": "read_card"}],
+                plan=dict(base["plan"], exchanges=[{"o": "ok", "uid": [1, 2, 3, 4], "fault": {"pos": 1, "kind": "silence"}}]))]
+    out = run_scenarios(binary, scs, wd, "cal")
+    got = []
+    for line in open(out):
+        tr = json.loads(line)["trace"]
+        f = next((e for e in tr if e["e"] == "fault"), None)
+        c = next((e for e in tr if e["e"] == "close" and f and e["conn"] == f["conn"] and e["t"] >= f["t"]), None)
+        got.append((c["t"] - f["t"]) if f and c else None)
+    ppt = got[0] // 1000 if got[0] and got[0] >= 1000 and got[0] < 86400000 else 60
+    rc = got[1] // 1000 - 15 if got[1] and 16000 <= got[1] < 86400000 else 2
+    if (ppt, rc) != (60, 2):
+        chk.drift("L4-stream", "D10-time-constants", {"per_packet_timeout_s": ppt, "read_card_margin_s": rc, "shipped": [60, 2],
+                                                       "measured_ms": got})
+    chk.cov["measured_time_constants"] = {"per_packet_timeout_s": ppt, "read_card_margin_s": rc}
+    _CAL["v"] = (ppt, rc)
+    return _CAL["v"]
+
+
+def gen_scenarios(chk, mode, thorough, ppt=60, rcm=2):
+    r = vlib.tlc("client/Gen_Client.tla", workers=1, xmx="8g", env={"GEN_MODE": mode, "GEN_THOROUGH": "1" if thorough else "0", "GEN_BIG": "0",
+                                                                   "GEN_PPT": str(ppt), "GEN_RCM": str(rcm)}, timeout=3000)
     vlib.tlc_must_pass(r, "Gen_Client " + mode)
     sc = cc.parse_cases(r.out)
     if len(sc) != r.distinct:
@@ -214,7 +248,7 @@ def report(chk, outs, iflags, pflags, claim, what=None):
 CFLAG_RE = PFLAG_RE
 
 
-def validate_conn(chk, out_path, wd, label, shard=300):
+def validate_conn(chk, out_path, wd, label, shard=300, ppt=60, rcm=2):
     """TLC runs the connection-level acceptors (TraceConn: P_C09, P_C10) over the traces."""
     lines = open(out_path).read().splitlines()
     shards = []
@@ -236,6 +270,8 @@ def validate_conn(chk, out_path, wd, label, shard=300):
                 full.update(o.get("config") or {})
                 c["serial"] = [ord(ch) for ch in full["serial"]]
                 c["tag"] = o.get("tag", "")
+                c["ppt"] = ppt
+                c["rcm"] = rcm
                 w.write(json.dumps({"e": "reset", "sc": k + i + 1, "cfg": c}) + "\n")
                 for e in o["trace"]:
                     e.pop("plan", None)
